@@ -719,6 +719,18 @@ class Sim(object):
             else:
                 raise HarnessHang("blocking recv() with nothing ever to come")
         if st.inbox:
+            if st.tls and st.attempt.get("tls_eager"):
+                # a TLS layer that decrypts everything that has arrived at once and reports all
+                # of it through pending() (read-ahead); OpenSSL's default is the record-at-a-time
+                # behaviour below
+                parts = []
+                due = 0.0
+                while st.inbox:
+                    chunk, due = st.inbox.popleft()
+                    parts.append(chunk)
+                st.record = b"".join(parts)
+                st.record_due = due
+                return self._serve_record(st, count)
             if st.tls:
                 chunk, due = st.inbox.popleft()
                 rec = st.attempt.get("record", 16384)
